@@ -49,7 +49,8 @@ fn floor(y: &[f64]) -> f64 {
 /// allowed distance from a one-step formula, and that distance in units of (1+|y|)
 fn one_step_tol(rhs: &dyn Rhs<f64>, tp: f64, yp: &[f64], t: f64, y: &[f64]) -> f64 {
     let fnorm = norm2(&eval_f(rhs, tp, yp));
-    ONE_STEP_TOL * (1.0 + norm2(y)) + 8.0 * EPS * t.abs().max(tp.abs()) * fnorm
+    let tm = t.abs().max(tp.abs());
+    ONE_STEP_TOL * (1.0 + norm2(y)) + 8.0 * EPS * tm * fnorm + 16.0 * EPS * tm * (t - tp).abs() * rhs.t_lip()
 }
 
 #[derive(Default)]
@@ -336,6 +337,7 @@ fn run_complex_case(rep: &mut Report, solver: Solver, prob: &GenericProblem, cfg
         extra_calls: oc.extra_calls,
         extra_items: vec![],
         dim_mismatch: oc.dim_mismatch,
+        collect_after: None,
     };
     let case = || J::obj().set("solver", solver.name()).set("field", "Complex<f64> (state = first n + i last n components of the real problem)").set("mode", format!("{:?}", mode)).set("cfg", cfg.to_json()).set("problem", prob.to_json());
     if out.n_err() > 0 || out.budget_hit {
@@ -417,6 +419,111 @@ fn run_switch_case(rep: &mut Report, solver: Solver, rng: &mut Rng) {
     }
 }
 
+/// Boundary coincidence "estimate == tolerance": the tolerance is located, by bisection over f64 bit
+/// patterns with the solver's own first accept/reject decision as the probe, between two adjacent
+/// floats lo < hi such that the first trial step is rejected at lo and accepted at hi. A correct
+/// implementation accepts iff estimate <= tol, so the estimate equals hi exactly; an implementation
+/// whose two internal acceptance tests disagree at equality shifts the boundary by one ulp and
+/// misbehaves at one of the two tolerances. Both are solved in full and judged by the C03 oracle.
+fn eq_tol_case(rep: &mut Report, solver: Solver, prob: &GenericProblem, rng: &mut Rng) {
+    let tol_scale = rng.log10(-9.0, -5.0);
+    let dt_max = dtmax_for(solver, prob.lip, tol_scale, 1.0) * rng.r(2.0, 6.0);
+    let dt_min = dt_max * 1e-9;
+    let t0 = rng.r(-1.0, 1.0);
+    let base = Cfg { t0, t1: t0 + (dt_max + dt_min) * 0.5 * rng.r(3.0, 6.0), dt_min, dt_max, tol: 1.0 };
+    let expect_first = base.t0 + base.dt0();
+    let mut probes = 0u64;
+    let mut accepted = |tol: f64| -> Option<bool> {
+        let cfg = Cfg { tol, ..base.clone() };
+        let out = solve_real(solver, &cfg, &prob.y0, prob, &Opts { budget: 10_000, max_items: 1, mode: DimMode::Dynamic, ..Default::default() });
+        probes += 1;
+        match out.items.first() {
+            Some(Item::Ok(t, _)) => Some(*t == expect_first),
+            // the minimum-step error before any point: the first trial was certainly not accepted
+            Some(Item::Err(_)) => Some(false),
+            _ => None,
+        }
+    };
+    let (mut lo, mut hi) = (1e-200f64.to_bits(), 1.0f64.to_bits());
+    let (alo, ahi) = (accepted(f64::from_bits(lo)), accepted(f64::from_bits(hi)));
+    if alo != Some(false) || ahi != Some(true) {
+        rep.count(&format!("eq_tol/bracket_not_found lo={:?} hi={:?}", alo, ahi), 1);
+        return;
+    }
+    while hi - lo > 1 {
+        let mid = lo + (hi - lo) / 2;
+        match accepted(f64::from_bits(mid)) {
+            Some(true) => hi = mid,
+            Some(false) => lo = mid,
+            None => {
+                rep.count("eq_tol/probe_error", 1);
+                return;
+            }
+        }
+    }
+    rep.evals(probes);
+    rep.count(&format!("{}/estimate_equals_tolerance_cases", solver.name()), 1);
+    for bits in [lo, hi] {
+        let cfg = Cfg { tol: f64::from_bits(bits), ..base.clone() };
+        run_case(rep, solver, prob, &cfg, DimMode::Dynamic);
+    }
+}
+
+/// G-generic plus a narrow forcing spike A sech^2((t - tc)/w) shortly before the end of the interval.
+struct Spiked<'a> {
+    base: &'a GenericProblem,
+    amp: Vec<f64>,
+    tc: f64,
+    w: f64,
+}
+impl<'a> Rhs<f64> for Spiked<'a> {
+    fn dim(&self) -> usize {
+        self.base.n
+    }
+    fn eval(&self, t: f64, y: &[f64], out: &mut [f64]) {
+        self.base.eval(t, y, out);
+        let c = ((t - self.tc) / self.w).cosh();
+        let s = 1.0 / (c * c);
+        for i in 0..out.len() {
+            out[i] += self.amp[i] * s;
+        }
+    }
+    fn t_lip(&self) -> f64 {
+        self.amp.iter().fold(0.0f64, |m, a| m.max(a.abs())) / self.w
+    }
+}
+
+/// Nearly fixed step (dt_min = 0.3..1.0 dt_max), an interval that is not a multiple of the step, and
+/// a right-hand side that turns rough inside the last, clipped step (shorter than dt_min): that
+/// step must pass the error test like any other, or the solve must report the minimum-step error.
+fn late_spike_case(rep: &mut Report, solver: Solver, prob: &GenericProblem, rng: &mut Rng) {
+    let tol = rng.log10(-9.0, -6.0);
+    let dt_max = if solver == Solver::Euler { 0.01 / prob.lip } else { dtmax_for(solver, prob.lip, tol, rng.r(0.7, 1.0)) };
+    let dt_min = dt_max * rng.r(0.3, 1.0);
+    let dt0 = (dt_max + dt_min) * 0.5;
+    let t0 = rng.r(-1.0, 1.0);
+    let rem = dt_min * rng.r(0.2, 0.9);
+    let m = (3 + rng.below(12)) as f64;
+    let t1 = t0 + m * dt0 + rem;
+    let sp = Spiked { base: prob, amp: (0..prob.n).map(|_| rng.sign() * rng.log10(1.0, 4.0)).collect(), tc: t1 - rem * rng.r(0.2, 0.8), w: rem * rng.r(0.05, 0.4) };
+    let cfg = Cfg { t0, t1, dt_min, dt_max, tol };
+    let opts = Opts { budget: 3_000_000, max_items: 4_000, mode: DimMode::Dynamic, order: ((cfg.t1.to_bits() >> 7) % 6) as u8, ..Default::default() };
+    let out = solve_real(solver, &cfg, &prob.y0, &sp, &opts);
+    rep.eval();
+    rep.count(&format!("{}/solves", solver.name()), 1);
+    rep.count(&format!("{}/late_spike_solves", solver.name()), 1);
+    let case = || J::obj().set("solver", solver.name()).set("cfg", cfg.to_json()).set("problem", prob.to_json()).set("spike", J::obj().set("A", J::fs(&sp.amp)).set("tc", sp.tc).set("w", sp.w).set("formula", "f_i += A_i sech^2((t - tc)/w)"));
+    if out.n_err() > 0 || out.budget_hit {
+        // a minimum-step error on this problem is the legitimate outcome; the yielded prefix is judged
+        rep.count(&format!("{}/late_spike_solves_ending_in_err", solver.name()), 1);
+    }
+    if let Some((rk, ms)) = judge(rep, solver, &cfg, &sp, prob.lip, &prob.y0, &out, &case) {
+        if rk + ms > 0 {
+            rep.nontrivial(CaseHash::new("c03-spike").u(solver.idx() as u64).fs(&prob.a).f(cfg.t1).f(sp.tc).f(tol).0);
+        }
+    }
+}
+
 pub fn stages(ctx: &Ctx) -> Vec<Stage> {
     let seed = ctx.seed;
     let mut st = vec![];
@@ -462,6 +569,50 @@ pub fn stages(ctx: &Ctx) -> Vec<Stage> {
         let mode = if rng.bool() { DimMode::Static } else { DimMode::Dynamic };
         run_case(rep, solver, &prob, &cfg, mode);
     }));
+    // "end just past a step": the ending time lies a sliver beyond a time at which the solver would have
+    // produced a point anyway; the clipped final step (far shorter than dt_min) is an ordinary step
+    let nsl = ctx.tier.pick(3_500, 70_000);
+    st.push(Stage::new("end-just-past-a-step", nsl, move |i, rep| {
+        let mut rng = Rng::for_case(seed, "c03-sliver", i);
+        let solver = Solver::ALL[(i % 7) as usize];
+        let n = 1 + rng.below(3);
+        let prob = GenericProblem::gen(&mut rng, n);
+        let mut cfg = gen_cfg(&mut rng, solver, prob.lip, (-9.0, -6.0), (0.8, 1.5));
+        if rng.bool() {
+            cfg.dt_min = cfg.dt_max * rng.r(0.05, 0.5);
+        }
+        let probe = solve_real(solver, &cfg, &prob.y0, &prob, &Opts { budget: 2_000_000, max_items: 4_000, mode: DimMode::Dynamic, ..Default::default() });
+        rep.eval();
+        let pts = probe.ok_points();
+        if pts.len() < 4 {
+            return;
+        }
+        let k = 1 + rng.below(pts.len() - 2);
+        let tk = pts[k].0;
+        let t1 = tk + cfg.dt_max * rng.log10(-12.0, -3.0);
+        if !(t1 > tk) {
+            return;
+        }
+        let cfg2 = Cfg { t1, ..cfg.clone() };
+        rep.count(&format!("{}/sliver_cases", solver.name()), 1);
+        run_case(rep, solver, &prob, &cfg2, DimMode::Dynamic);
+    }));
+    let neq = ctx.tier.pick(200, 4_000);
+    st.push(Stage::new("estimate-equals-tolerance", neq, move |i, rep| {
+        let mut rng = if i < 20 { Rng::for_case(7117, "c03-eqtol-anchor", i) } else { Rng::for_case(seed, "c03-eqtol", i) };
+        let solver = if i % 2 == 0 { Solver::RK45 } else { Solver::RK23 };
+        let n = 1 + rng.below(3);
+        let prob = GenericProblem::gen(&mut rng, n);
+        eq_tol_case(rep, solver, &prob, &mut rng);
+    }));
+    let nsp = ctx.tier.pick(3_500, 70_000);
+    st.push(Stage::new("late-spike", nsp, move |i, rep| {
+        let mut rng = Rng::for_case(seed, "c03-spike", i);
+        let solver = Solver::ALL[(i % 7) as usize];
+        let n = 1 + rng.below(3);
+        let prob = GenericProblem::gen(&mut rng, n);
+        late_spike_case(rep, solver, &prob, &mut rng);
+    }));
     let nc = ctx.tier.pick(7_000, 140_000);
     st.push(Stage::new("complex", nc, move |i, rep| {
         let mut rng = Rng::for_case(seed, "c03-complex", i);
@@ -501,6 +652,12 @@ pub fn thresholds(ctx: &Ctx, rep: &Report) -> Vec<Threshold> {
     }
     for s in [Solver::Euler, Solver::RK45, Solver::RK23] {
         t.push(Threshold { what: format!("{}: points validated", s.name()), required: ctx.tier.pick(2_000.0, 400_000.0), observed: rep.counter(&format!("{}/points_rk_branch", s.name())) as f64 });
+    }
+    for s in [Solver::RK45, Solver::RK23] {
+        t.push(Threshold { what: format!("{}: tolerances located where the first trial's estimate equals the tolerance exactly", s.name()), required: ctx.tier.pick(60.0, 1_200.0), observed: rep.counter(&format!("{}/estimate_equals_tolerance_cases", s.name())) as f64 });
+    }
+    for s in Solver::ALL {
+        t.push(Threshold { what: format!("{}: late-spike solves (rough right-hand side inside the clipped final step)", s.name()), required: ctx.tier.pick(300.0, 6_000.0), observed: rep.counter(&format!("{}/late_spike_solves", s.name())) as f64 });
     }
     let solves: i64 = Solver::ALL.iter().map(|s| rep.counter(&format!("{}/solves", s.name()))).sum();
     let errs: i64 = Solver::ALL.iter().map(|s| rep.counter(&format!("{}/err_solves", s.name()))).sum();
